@@ -36,6 +36,7 @@ type lcReq struct {
 	k    int    // topic ref
 	arg  string // unsub flag
 	as   string // "" (the name the user normally uses) | "grp" | "chn": name form of a group/channel topic in the request
+	obo   int    // 0 | user the request is made on behalf of (extra.obo; root sessions, round s14f)
 	fault string // "" | name of a store adapter method (e.g. "TopicDelete"): the first call of that method made while this
 	// request is handled fails (zz_verif_c14d_test.go)
 }
@@ -291,15 +292,16 @@ func (sc *lcScn) reqJSON(ls *lcSess, r lcReq) string {
 			}
 		}
 	}
+	extra := lcOboExtraC14f(sc, r)
 	switch r.kind {
 	case "sub":
-		return `{"sub":{"id":"` + r.rid + `","topic":"` + tn + `"}}`
+		return `{"sub":{"id":"` + r.rid + `","topic":"` + tn + `"}` + extra + `}`
 	case "leave":
 		u := ""
 		if r.arg == "1" {
 			u = `,"unsub":true`
 		}
-		return `{"leave":{"id":"` + r.rid + `","topic":"` + tn + `"` + u + `}}`
+		return `{"leave":{"id":"` + r.rid + `","topic":"` + tn + `"` + u + `}` + extra + `}`
 	case "pub":
 		return `{"pub":{"id":"` + r.rid + `","topic":"` + tn + `","content":"x"}}`
 	case "deltopic":
@@ -792,6 +794,9 @@ func (sc *lcScn) runBurst() {
 			if strings.HasPrefix(x, "fault=") {
 				r.fault = x[6:]
 			}
+			if strings.HasPrefix(x, "obo=") {
+				r.obo, _ = strconv.Atoi(x[4:])
+			}
 		}
 		if ls := sc.sess[si]; ls != nil && atomic.LoadInt32(&ls.dead) == 0 {
 			ls.reqCh <- r
@@ -885,9 +890,10 @@ func (sc *lcScn) dump() {
 		sort.Strings(chs)
 		sort.Strings(chu)
 		st := atomic.LoadInt32(&tt.status)
-		fmt.Fprintf(sc.out, "state topic %d loaded=1 stored=%s paused=%s deleted=%s sessions=%s online=%s queues=%d ischan=%s chansess=%s chanusers=%s\n", k, vB2s(lcStored(t)),
+		fmt.Fprintf(sc.out, "state topic %d loaded=1 stored=%s paused=%s deleted=%s sessions=%s online=%s queues=%d ischan=%s chansess=%s chanusers=%s%s\n", k, vB2s(lcStored(t)),
 			vB2s(st&topicStatusPaused != 0), vB2s(st&topicStatusMarkedDeleted != 0), strings.Join(ss, ","), strings.Join(on, ","),
-			len(tt.reg)+len(tt.unreg)+len(tt.meta)+len(tt.clientMsg)+len(tt.exit), vB2s(tt.isChan), strings.Join(chs, ","), strings.Join(chu, ","))
+			len(tt.reg)+len(tt.unreg)+len(tt.meta)+len(tt.clientMsg)+len(tt.exit), vB2s(tt.isChan), strings.Join(chs, ","), strings.Join(chu, ","),
+			lcDumpAsUserC14f(sc, t, tt))
 	}
 	fmt.Fprintf(sc.out, "goroutines %d\n", runtime.NumGoroutine())
 }
@@ -1029,6 +1035,10 @@ func TestVerifLifecycle(t *testing.T) {
 				c, _ = strconv.Atoi(v)
 			}
 			sc.sess[si] = sc.newSession(si, ui, c)
+			if kv["root"] == "1" {
+				// round s14f: a root session (may act on behalf of other users: extra.obo)
+				sc.sess[si].s.authLvl = auth.LevelRoot
+			}
 		case "q", "i":
 			sc.burst = append(sc.burst, in.Text())
 		case "go":
